@@ -459,6 +459,8 @@ struct Exec<'a> {
     call_no: usize,
     last_sizes: (u32, u32),
     foreign: Box<[u8; 16]>,
+    kb_names: Vec<Vec<u8>>, // by id, read through chewing_set_KBType + chewing_get_KBString on a scratch context
+    kb_pos: Option<usize>,
 }
 
 const B_COMMIT: usize = 0;
@@ -535,12 +537,20 @@ impl<'a> Exec<'a> {
                     }
                     if e.len() >= cap {
                         self.out.bump("static_truncated");
+                        if e != long_cand().as_bytes() {
+                            self.fail("static-truncated", format!("{}: a reachable text of {} bytes does not fit the {}-byte buffer", what, e.len(), cap));
+                        }
                     }
                 }
             }
         }
         self.out.bump("static_strings");
-        format!("B {} {}", buf, bytes_str(&b))
+        // canonical view: what a C caller can see - the bytes up to the first NUL inside the buffer
+        // (bytes after the terminator are not constrained by the property)
+        match b.iter().position(|x| *x == 0) {
+            Some(n) => format!("B {} 1 {}", buf, bytes_str(&b[..n])),
+            None => format!("B {} 0 {}", buf, bytes_str(&b)),
+        }
     }
 
     fn cstr(s: &str) -> CString {
@@ -778,6 +788,7 @@ impl<'a> Exec<'a> {
                 self.emit("10".to_string(), r);
             }
             Call::KbEnum => {
+                self.kb_pos = Some(0);
                 unsafe { chewing_kbtype_Enumerate(ctx) };
                 self.emit("11".to_string(), "N".to_string());
                 self.out.bump("kb_enum");
@@ -787,6 +798,9 @@ impl<'a> Exec<'a> {
                 self.emit("12".to_string(), format!("I {}", r));
             }
             Call::KbString => {
+                if let Some(k) = self.kb_pos.as_mut() {
+                    *k += 1;
+                }
                 let p = unsafe { chewing_kbtype_String(ctx) };
                 match self.heap_text(p, "kbtype_String") {
                     Some(b) => {
@@ -798,8 +812,12 @@ impl<'a> Exec<'a> {
                 }
             }
             Call::KbStringStatic => {
+                let expect: Option<Vec<u8>> = self.kb_pos.and_then(|k| self.kb_names.get(k).cloned());
+                if let Some(k) = self.kb_pos.as_mut() {
+                    *k += 1;
+                }
                 let p = unsafe { chewing_kbtype_String_static(ctx) };
-                let r = self.static_res(B_KBTYPE, p, None, "kbtype_String_static");
+                let r = self.static_res(B_KBTYPE, p, expect.as_deref(), "kbtype_String_static");
                 self.emit("14".to_string(), r);
             }
             Call::UpEnum => {
@@ -993,8 +1011,12 @@ impl<'a> Exec<'a> {
                 }
             }
             Call::FreeForeign => {
-                let p = self.foreign.as_ptr() as usize;
-                self.free_ptr(p);
+                // with stale registry entries (entry kept after a free) a pointer the library never returned
+                // may alias a dead entry and would be released: only executed when entries are removed
+                if SAFE_DOUBLE_FREE.load(Ordering::SeqCst) {
+                    let p = self.foreign.as_ptr() as usize;
+                    self.free_ptr(p);
+                }
                 self.free_ptr(0);
             }
         }
@@ -1016,7 +1038,24 @@ fn prepare_user_file(sysdir: &str, path: &Path) {
     unsafe { chewing_delete(ctx) };
 }
 
-fn run_seq(seq: &Seq, seq_id: usize, sysdir: &str, workdir: &Path, preload: &Path, caps: [usize; 6], out: &mut Out, seqlog: &mut Vec<String>) {
+fn read_kb_names(sysdir: &str, path: &Path) -> Vec<Vec<u8>> {
+    let sys = CString::new(sysdir).unwrap();
+    let up = CString::new(path.to_str().unwrap()).unwrap();
+    let ctx = unsafe { chewing_new2(sys.as_ptr(), up.as_ptr(), None, null_mut()) };
+    assert!(!ctx.is_null(), "chewing_new2 failed");
+    let total = unsafe { chewing_kbtype_Total(ctx) };
+    let mut v = vec![];
+    for i in 0..total {
+        unsafe { chewing_set_KBType(ctx, i) };
+        let p = unsafe { chewing_get_KBString(ctx) };
+        v.push(unsafe { CStr::from_ptr(p) }.to_bytes().to_vec());
+        unsafe { chewing_free(p.cast()) };
+    }
+    unsafe { chewing_delete(ctx) };
+    v
+}
+
+fn run_seq(seq: &Seq, seq_id: usize, sysdir: &str, workdir: &Path, preload: &Path, caps: [usize; 6], kb_names: &[Vec<u8>], out: &mut Out, seqlog: &mut Vec<String>) {
     let dir = workdir.join(format!("u{}", seq_id));
     let _ = std::fs::remove_dir_all(&dir);
     std::fs::create_dir_all(&dir).unwrap();
@@ -1043,6 +1082,8 @@ fn run_seq(seq: &Seq, seq_id: usize, sysdir: &str, workdir: &Path, preload: &Pat
         call_no: 0,
         last_sizes: (0, 0),
         foreign: Box::new([0x41; 16]),
+        kb_names: kb_names.to_vec(),
+        kb_pos: None,
     };
     for c in &seq.calls {
         seqlog.push(c.print());
@@ -1379,6 +1420,7 @@ fn execute(seqs: &[Seq], sysdir: &str, workdir: &str, prefix: &str, caps: [usize
     std::fs::create_dir_all(&work).unwrap();
     let preload = work.join("preload.dat");
     prepare_user_file(sysdir, &preload);
+    let kb_names = read_kb_names(sysdir, &work.join("kbnames.dat"));
     TRACKING.store(true, Ordering::SeqCst);
     let mut out = Out { trace: vec![], obs: vec![], failures: vec![], stats: Default::default() };
     let mut seqlog = vec![];
@@ -1390,7 +1432,7 @@ fn execute(seqs: &[Seq], sysdir: &str, workdir: &str, prefix: &str, caps: [usize
     for (i, q) in seqs.iter().enumerate() {
         let m0 = MISMATCH.load(Ordering::SeqCst);
         let f0 = out.failures.len();
-        run_seq(q, i, sysdir, &work, &preload, caps, &mut out, &mut seqlog);
+        run_seq(q, i, sysdir, &work, &preload, caps, &kb_names, &mut out, &mut seqlog);
         let m1 = MISMATCH.load(Ordering::SeqCst);
         if m1 != m0 && out.failures.len() == f0 {
             out.failures.push(format!(
